@@ -6,8 +6,8 @@
 #   tools/iso.sh seedtest <patch> [--props ...]
 #   tools/iso.sh drop                      remove both
 set -e
-V=/tmp/viso
-R=/tmp/riso
+V=/tmp/viso${ISO_SUFFIX}
+R=/tmp/riso${ISO_SUFFIX}
 case "$1" in
   sync)
     [ -d "$R" ] || git -C /repo worktree add --detach "$R" HEAD >/dev/null
